@@ -23,6 +23,7 @@ EXPLANATION = (
     "re-evaluated here.  R6 (build then reset): OnlineState::flush modifies request_resend / packet / packet_nonvital only after "
     "PacketBuilder::send was called with them.  Not decided: chunk bytes bit-identical after a reader pass (value level)."
 )
+EXPLANATION += ('  Round 4: B7 is decided from admission edges (true edge of can_fit_chunk(..), of the emptiness test of the packet that is written and flushed -- not of a sibling --, or of a bool local holding such a decision): every write_chunk in resend is unreachable once they are cut; can_fit_chunk itself may answer true only in blocks dominated by a bound num_chunks < 255, in whatever form it is spelled.')
 ASSUMPTIONS = [
     "std / arrayvec functions outside the precondition table do not panic; Callback/Warn implementations do not panic",
     "documented API preconditions (assert_online, reset/connect state, NUL-free reason of at most 127 bytes) are the caller's",
